@@ -43,6 +43,8 @@ M = {
   ("benign-guard-idiom", PG + "net_model.cpp", "    if (!circuit.isFixed(i)) {\n      circuit.cellX_[i] = std::round(xplace[i] - 0.5f * circuit.placedWidth(i));\n    }", "    if (circuit.isFixed(i)) {\n      continue;\n    }\n    circuit.cellX_[i] = std::round(xplace[i] - 0.5f * circuit.placedWidth(i));", H, []),
  ],
  "C04": [
+  ("getOrientation-keeps-incoming-on-turn-mismatch", PD + "legalizer.cpp", "  return orient;\n}", "  if (isTurn(orient) != isTurn(cellTargetOrientation_[cell])) {\n    return cellTargetOrientation_[cell];\n  }\n  return orient;\n}", V, ["KO"]),
+  ("benign-getOrientation-inverted-test", PD + "legalizer.cpp", "  if (orient == CellOrientation::UNKNOWN) {\n    // Keep the same orientation\n    return cellTargetOrientation_[cell];\n  }\n  return orient;\n}", "  if (orient != CellOrientation::UNKNOWN) {\n    return orient;\n  }\n  return cellTargetOrientation_[cell];\n}", H, []),
   ("legalizer-given-the-circuits-polarity-vector", PD + "legalizer.cpp", "  return Legalizer(circuit.computeRows(), widths, heights, polarities, x, y,\n                   orient);", "  return Legalizer(circuit.computeRows(), widths, heights,\n                   circuit.cellRowPolarity_, x, y, orient);", V, ["CA"]),
   ("opposite-table-wrong", "src/parameters.cpp", "    case CellOrientation::N:\n      return CellOrientation::FS;", "    case CellOrientation::N:\n      return CellOrientation::FN;", V, ["T1"]),
   ("NW-polarity-misses-FW", "src/parameters.cpp", "        rowOrientation == CellOrientation::FW ||\n        rowOrientation == CellOrientation::W) {", "        rowOrientation == CellOrientation::W) {", V, ["T2"]),
@@ -80,6 +82,7 @@ M = {
   ("benign-blend-reordered", PG + "place_global.cpp", "    ret.push_back((1.0f - blending) * v1[i] + blending * v2[i]);", "    ret.push_back(blending * v2[i] + (1.0f - blending) * v1[i]);", H, []),
  ],
  "C07": [
+  ("closestRow-answers-minus-one", PD + "legalizer.cpp", "    throw std::runtime_error(\"No row left to place the cells\");", "    return -1;", V, ["E1"]),
   ("light-star-stamps-a-possibly-fixed-pin-as-moving", PG + "net_model.cpp", "        addPin(c, starC, topo_.pinOffset(net, i), pos - starPos, w1 + w2);", "        addMovingPin(c, starC, topo_.pinOffset(net, i), pos - starPos, w1 + w2);", V, ["MC"]),
   ("benign-light-star-tests-the-cell-itself", PG + "net_model.cpp", "        addPin(c, starC, topo_.pinOffset(net, i), pos - starPos, w1 + w2);", "        if (c >= 0) {\n          addMovingPin(c, starC, topo_.pinOffset(net, i), pos - starPos, w1 + w2);\n        } else {\n          addPin(c, starC, topo_.pinOffset(net, i), pos - starPos, w1 + w2);\n        }", H, []),
   ("rough-legalizer-margin-and-bin-size-exchanged", PG + "place_global.cpp", "          circuit, params.global.roughLegalization.binSize,\n          params.global.roughLegalization.sideMargin)),", "          circuit, params.global.roughLegalization.sideMargin,\n          params.global.roughLegalization.binSize)),", V, ["SW"]),
@@ -104,6 +107,7 @@ M = {
   ("future-not-joined", PG + "place_global.cpp", "  xPlacementLB_ = x.get();\n  yPlacementLB_ = y.get();", "  xPlacementLB_ = x.get();\n  if (step_ > 1) yPlacementLB_ = y.get();", V, ["A1"]),
  ],
  "C09": [
+  ("y-pseudo-cell-at-area-origin", PD + "incr_net_model.cpp", "  cellY.push_back(0);", "  cellY.push_back(circuit.computePlacementArea().minY);", V, ["TW"]),
   ("fixed-extent-strict-emptiness-test", PD + "incr_net_model.cpp", "    if (hasFixed) {\n      cells.push_back(fixedCell);\n      offsets.push_back(minFixed);", "    if (minFixed < maxFixed) {\n      cells.push_back(fixedCell);\n      offsets.push_back(minFixed);", V, ["SN"]),
   ("benign-fixed-extent-nonstrict-test", PD + "incr_net_model.cpp", "    if (hasFixed) {\n      cells.push_back(fixedCell);\n      offsets.push_back(minFixed);", "    if (minFixed <= maxFixed) {\n      cells.push_back(fixedCell);\n      offsets.push_back(minFixed);", H, []),
   ("pinX-flip-set-incomplete", "src/coloquinte.cpp", "                 orient == CellOrientation::FN || orient == CellOrientation::FE;\n  return flipped ? placedWidth(cell) - offs : offs;", "                 orient == CellOrientation::FN;\n  return flipped ? placedWidth(cell) - offs : offs;", V, ["T3"]),
@@ -124,6 +128,8 @@ M = {
   ("benign-try-catch-idiom", "src/coloquinte.cpp", "  InUseGuard guard(isInUse_);\n  GlobalPlacer::place(*this, params, callback);", "  isInUse_ = true;\n  try {\n    GlobalPlacer::place(*this, params, callback);\n  } catch (...) {\n    isInUse_ = false;\n    throw;\n  }\n  isInUse_ = false;", H, []),
  ],
  "C12": [
+  ("descent-limit-through-remainingSpace", PD + "row_legalizer.cpp", "          bounds.top().absolutePos > end_ - usedSpace() - width)) {", "          bounds.top().absolutePos + width > remainingSpace())) {", V, ["LC"]),
+  ("benign-descent-limit-width-on-the-left", PD + "row_legalizer.cpp", "          bounds.top().absolutePos > end_ - usedSpace() - width)) {", "          bounds.top().absolutePos + width > end_ - usedSpace())) {", H, []),
   ("prediction-on-a-shifted-target", PD + "row_legalizer.cpp", "  return getDisplacement(width, targetPos, false);", "  return getDisplacement(width, targetPos - begin_, false);", V, ["PA"]),
   ("pop-limit-forgets-row-begin", PD + "row_legalizer.cpp", "bounds.top().absolutePos > end_ - usedSpace() - width)) {", "bounds.top().absolutePos > remainingSpace() - width)) {", V, ["LC"]),
   ("benign-pop-limit-through-getter", PD + "row_legalizer.cpp", "bounds.top().absolutePos > end_ - usedSpace() - width)) {", "bounds.top().absolutePos > begin_ + remainingSpace() - width)) {", H, []),
@@ -150,6 +156,8 @@ M = {
   ("result-sized-by-sorted-count", PG + "transportation_1d.cpp", "  std::vector<int> ret(nbSources_, snkOrder.empty() ? 0 : snkOrder.front());", "  std::vector<int> ret(srcOrder.size(), snkOrder.empty() ? 0 : snkOrder.front());", V, ["QI"]),
  ],
  "C15": [
+  ("placedWidth-forgets-mirrored-quarter-turns", "src/coloquinte.cpp", "  return isTurn(orient) ? cellHeight_[cell] : cellWidth_[cell];", "  return (orient == CellOrientation::W || orient == CellOrientation::E) ? cellHeight_[cell] : cellWidth_[cell];", V, ["TT"]),
+  ("benign-placedWidth-named-flag", "src/coloquinte.cpp", "  return isTurn(orient) ? cellHeight_[cell] : cellWidth_[cell];", "  const bool turned = isTurn(orient);\n  return turned ? cellHeight_[cell] : cellWidth_[cell];", H, []),
   ("is-turn-misses-FW", "src/parameters.cpp", "orient == CellOrientation::FW || orient == CellOrientation::FE;", "orient == CellOrientation::FE || orient == CellOrientation::FE;", V, ["TT"]),
   ("benign-is-turn-listed-in-another-order", "src/parameters.cpp", "orient == CellOrientation::FW || orient == CellOrientation::FE;", "orient == CellOrientation::FE || orient == CellOrientation::FW;", H, []),
   ("free-rectangle-scan-stops-at-a-partial-one", "src/coloquinte.cpp", "    if (newRow.height() == height()) {\n      ret.emplace_back(newRow, orientation);\n    }", "    if (newRow.height() != height()) {\n      break;\n    }\n    ret.emplace_back(newRow, orientation);", V, ["G13"]),
@@ -165,6 +173,8 @@ M = {
   ("benign-merged-guard", "src/coloquinte.cpp", "    if (!isFixed(i)) {\n      continue;\n    }\n    if (!isObstruction(i)) {\n      continue;\n    }\n    obstacles.emplace_back(placement(i));", "    if (!isFixed(i) || !isObstruction(i)) {\n      continue;\n    }\n    obstacles.emplace_back(placement(i));", H, []),
  ],
  "C16": [
+  ("y-limits-from-the-x-origin", PG + "density_grid.cpp", "      computeSubdivisions(placementArea_.minY, placementArea_.maxY, binsY);", "      computeSubdivisions(placementArea_.minX, placementArea_.maxY, binsY);", V, ["SX"]),
+  ("benign-y-limits-first", PG + "density_grid.cpp", "  binLimitX_ =\n      computeSubdivisions(placementArea_.minX, placementArea_.maxX, binsX);\n  binLimitY_ =\n      computeSubdivisions(placementArea_.minY, placementArea_.maxY, binsY);", "  binLimitY_ =\n      computeSubdivisions(placementArea_.minY, placementArea_.maxY, binsY);\n  binLimitX_ =\n      computeSubdivisions(placementArea_.minX, placementArea_.maxX, binsX);", H, []),
   ("subdivision-product-in-32-bits", "src/utils/helpers.hpp", "    ret.push_back(min + static_cast<int>(static_cast<long long>(i) *\n                                         (max - min) / number));", "    ret.push_back(min + i * (max - min) / number);", V, ["BL"]),
   ("benign-subdivision-widened-on-the-extent", "src/utils/helpers.hpp", "    ret.push_back(min + static_cast<int>(static_cast<long long>(i) *\n                                         (max - min) / number));", "    ret.push_back(min + static_cast<int>(i * static_cast<long long>(max - min) / number));", H, []),
   ("coarsen-without-remap", PG + "density_grid.cpp", "  binCells_ = newCells;\n  levelX_++;\n  updateCellToBin();", "  binCells_ = newCells;\n  levelX_++;", V, ["R7a"]),
@@ -173,6 +183,8 @@ M = {
   ("zero-demand-cells-admitted", PG + "density_grid.cpp", "    if (cellDemand_[c] > 0LL) {\n      allCells.push_back(c);\n    }", "    allCells.push_back(c);", V, ["G14"]),
  ],
  "C17": [
+  ("netWeight-accessor-affine", PG + "net_model.hpp", "    return netWeight_[net];", "    return 0.5f * netWeight_[net] + 0.5f;", V, ["QD"]),
+  ("benign-netWeight-accessor-at", PG + "net_model.hpp", "    return netWeight_[net];", "    return netWeight_.at(net);", H, []),
   ("max-pin-started-at-the-smallest-positive-float", PG + "net_model.cpp", "  float bestO = -std::numeric_limits<float>::infinity();", "  float bestO = std::numeric_limits<float>::min();", V, ["SN"]),
   ("benign-max-pin-started-at-lowest", PG + "net_model.cpp", "  float bestO = -std::numeric_limits<float>::infinity();", "  float bestO = std::numeric_limits<float>::lowest();", H, []),
   ("min-pin-also-keeps-the-last-pin-on-ties", PG + "net_model.cpp", "    if (pos < bestPos) {\n      bestI = i;", "    if (pos <= bestPos) {\n      bestI = i;", V, ["B2"]),
@@ -191,6 +203,8 @@ M = {
   ("benign-commuted-product", PG + "net_model.cpp", "  rhs_[c1] += weight * (pos - offs1);", "  rhs_[c1] += (pos - offs1) * weight;", H, []),
  ],
  "C18": [
+  ("byFactor-halves-the-margin", "src/coloquinte.cpp", "\n  long long rowArea = computeRowPlacementArea(rowSideMargin);\n", "\n  long long rowArea = computeRowPlacementArea(0.5 * rowSideMargin);\n", V, ["MA"]),
+  ("benign-margin-through-a-local", "src/coloquinte.cpp", "\n  long long rowArea = computeRowPlacementArea(rowSideMargin);\n", "\n  const double sideMargin = rowSideMargin;\n  long long rowArea = computeRowPlacementArea(sideMargin);\n", H, []),
   ("carry-credited-in-widths", "src/coloquinte.cpp", "      missingArea += h * (fracW - newW);", "      missingArea += w * (fracW - newW);", V, ["CY"]),
   ("rounding-carry-declared-per-cell", "src/coloquinte.cpp", "  double missingArea = 0.0;\n  for (int i = 0; i < nbCells(); ++i) {\n    if (!cellIsFixed_[i]) {\n      int h = cellHeight_[i];\n      int w = cellWidth_[i];\n      if (h <= 0 || w <= 0) {\n        continue;\n      }\n", "  for (int i = 0; i < nbCells(); ++i) {\n    if (!cellIsFixed_[i]) {\n      int h = cellHeight_[i];\n      int w = cellWidth_[i];\n      if (h <= 0 || w <= 0) {\n        continue;\n      }\n      double missingArea = 0.0;\n", V, ["CY"]),
   ("rounding-carry-reset-per-cell", "src/coloquinte.cpp", "      double fracW = w * expansionFactor;\n      // Force the expansion to a maximum", "      missingArea = 0.0;\n      double fracW = w * expansionFactor;\n      // Force the expansion to a maximum", V, ["CY"]),
@@ -211,6 +225,7 @@ M = {
   ("expansion-resets-heights", "src/coloquinte.cpp", "      cellWidth_[i] = newW;\n", "      cellWidth_[i] = newW;\n      cellHeight_[i] = h;\n", V, ["W5"]),
  ],
  "C19": [
+  ("rough-check-returns-early-without-steps", "src/parameters.cpp", "  if (lineReoptSize < 1 || diagReoptSize < 1 || squareReoptSize < 1) {", "  if (nbSteps == 0) {\n    return;\n  }\n  if (lineReoptSize < 1 || diagReoptSize < 1 || squareReoptSize < 1) {", V, ["ER"]),
   ("square-size-bounded-through-a-product", "src/parameters.cpp", "  if (lineReoptSize > 64 || diagReoptSize > 64 || squareReoptSize > 8) {", "  if (lineReoptSize > 64 || diagReoptSize > 64 || squareReoptSize * squareReoptSize > 64) {", V, ["VP"]),
   ("benign-bounds-through-named-constants", "src/parameters.cpp", "  if (lineReoptSize > 64 || diagReoptSize > 64 || squareReoptSize > 8) {", "  const int maxNbBins = 64;\n  const int maxSide = 8;\n  if (lineReoptSize > maxNbBins || diagReoptSize > maxNbBins || squareReoptSize > maxSide) {", H, []),
   ("benign-orientation-names-by-table", "src/parameters.cpp", "std::string toString(CellOrientation o) {\n  switch (o) {\n    case CellOrientation::N:\n      return \"N\";\n    case CellOrientation::S:\n      return \"S\";\n    case CellOrientation::E:\n      return \"E\";\n    case CellOrientation::W:\n      return \"W\";\n    case CellOrientation::FN:\n      return \"FN\";\n    case CellOrientation::FS:\n      return \"FS\";\n    case CellOrientation::FE:\n      return \"FE\";\n    case CellOrientation::FW:\n      return \"FW\";\n    case CellOrientation::INVALID:\n      return \"INVALID\";\n    default:\n      return \"UnknownCellOrientation\";\n  }\n}", "std::string toString(CellOrientation o) {\n  static const char *const names[] = {\"N\", \"S\", \"W\", \"E\", \"FN\", \"FS\", \"FW\", \"FE\", \"INVALID\"};\n  int ind = static_cast<int>(o);\n  if (ind < 0 || ind > static_cast<int>(CellOrientation::INVALID)) {\n    return \"UnknownCellOrientation\";\n  }\n  return names[ind];\n}", H, []),
